@@ -151,7 +151,7 @@ func (h *Handler) handleRequest(host *packet.Host, p packet.DHCP4, options packe
 		if lease.State == StateFree || // nothing offered or leased to this client: nothing to confirm
 			!bytes.Equal(lease.Addr.MAC, p.CHAddr()) || // invalid hardware
 			(lease.State == StateDiscover && (!bytes.Equal(lease.XID, p.XId()) || lease.IPOffer != reqIP || h.inUse(lease, lease.IPOffer))) || // invalid discover request or address taken since the offer
-			(lease.State == StateAllocated && lease.Addr.IP != reqIP) { // invalid request - iphone send duplicate select packets - let it pass
+			(lease.State == StateAllocated && (lease.Addr.IP != reqIP || h.takenByOther(lease, lease.Addr.IP))) { // invalid request or address taken since the lease - iphone send duplicate select packets - let it pass
 			Logger.Msg("request NACK - select invalid parameters").ByteArray("xid", p.XId()).ByteArray("lxid", lease.XID).IP("leaseIP", lease.Addr.IP).Write()
 			return nakPacket(p, subnet.DHCPServer.AsSlice(), clientID)
 		}
@@ -168,6 +168,10 @@ func (h *Handler) handleRequest(host *packet.Host, p packet.DHCP4, options packe
 			Logger.Msg("request NACK - renew invalid or expired lease").ByteArray("xid", p.XId()).IP("gw", subnet.DefaultGW).Write()
 			return nakPacket(p, subnet.DHCPServer.AsSlice(), clientID)
 		}
+		if h.takenByOther(lease, lease.Addr.IP) { // a host with another MAC was seen using the address since the lease
+			Logger.Msg("request NACK - renew address in use by another host").ByteArray("xid", p.XId()).IP("ip", reqIP).Write()
+			return nakPacket(p, subnet.DHCPServer.AsSlice(), clientID)
+		}
 		if Logger.IsInfo() {
 			Logger.Msg("request ACK - renewing").ByteArray("xid", p.XId()).IP("ip", reqIP).Write()
 		}
@@ -177,6 +181,10 @@ func (h *Handler) handleRequest(host *packet.Host, p packet.DHCP4, options packe
 		// being away or when wifi is switched off and on.
 		//  - client tries to pick up previosly know IP address, with a request packet.
 		//  - client does not send discover packet
+
+		// Was a host with another MAC seen using the address since the lease? The session must be
+		// asked before it is updated: afterwards it tracks reqIP for the requester itself.
+		taken := h.takenByOther(lease, reqIP)
 
 		// Update session with DHCP details - almost always a new host IP will be setup
 		h.session.DHCPv4Update(p.CHAddr(), reqIP, nameEntry)
@@ -199,7 +207,7 @@ func (h *Handler) handleRequest(host *packet.Host, p packet.DHCP4, options packe
 
 		if lease.State != StateAllocated ||
 			lease.Addr.IP != reqIP || !bytes.Equal(lease.Addr.MAC, p.CHAddr()) ||
-			!subnet.LAN.Contains(lease.Addr.IP) {
+			!subnet.LAN.Contains(lease.Addr.IP) || taken {
 			Logger.Msg("request NACK - rebooting").ByteArray("xid", p.XId()).IP("ip", reqIP).Write()
 
 			if h.mode == ModeSecondaryServer || (h.mode == ModeSecondaryServerNice && captured) {
